@@ -96,6 +96,40 @@ type c17Case struct {
 	FailedLoad bool `json:"failed_load,omitempty"`
 	// API: the schema is given to the root through the Go API (BuildAPI) instead of as SDL text
 	API bool `json:"api,omitempty"`
+	// Exercise: requests using the fields' arguments (ExerciseRequests) are resolved before the root
+	// is asked about itself
+	Exercise bool `json:"exercise,omitempty"`
+	// APISteps (with API): two AddTypes calls, see lateRoots
+	APISteps bool `json:"api_steps,omitempty"`
+}
+
+// lateRoots: the implied mutation and subscription types, if nothing else in the schema refers to
+// them (they can then be added after everything else).
+func lateRoots(s *hx.Schema) map[string]bool {
+	if s.Roots != nil {
+		return nil
+	}
+	out := map[string]bool{}
+	for _, n := range []string{"Mutation", "Subscription"} {
+		if td := s.Type(n); td != nil && td.Kind == hx.KObject {
+			out[n] = true
+		}
+	}
+	uses := func(t *hx.TRef) {
+		delete(out, t.BaseName())
+	}
+	for _, td := range s.Types {
+		for _, f := range td.Fields {
+			if !out[td.Name] {
+				uses(f.Type)
+			}
+		}
+		for _, m := range td.Members {
+			delete(out, m)
+		}
+	}
+	// (a late type may refer to the other late type: both arrive together)
+	return out
 }
 
 type resolverRoot struct{}
@@ -253,7 +287,19 @@ func checkC17(c *c17Case) (ds []hx.Discrepancy, info map[string]bool) {
 	} else {
 		built := false
 		if c.API {
-			err, usable := BuildAPI(root, c.Schema)
+			err, usable := error(nil), false
+			if late := lateRoots(c.Schema); c.APISteps && len(late) > 0 {
+				// the mutation / subscription types arrive in an AddTypes call of their own, after the
+				// root has served a request
+				info["operation-types-added-in-a-later-AddTypes-call"] = true
+				err, usable = hx.BuildAPI(root, c.Schema, hx.BuildOpts{Skip: late})
+				if usable && err == nil {
+					_ = root.ResolveString("{__typename}", "", nil)
+					err, usable = hx.BuildAPI(root, c.Schema, hx.BuildOpts{Only: late})
+				}
+			} else {
+				err, usable = BuildAPI(root, c.Schema)
+			}
 			if usable && err != nil {
 				return []hx.Discrepancy{{Kind: "api-schema-rejected", Detail: fmt.Sprintf("the schema built with the Go API is rejected: %v\n(the same schema as SDL)\n%s", err, sdl)}}, info
 			}
@@ -274,6 +320,28 @@ func checkC17(c *c17Case) (ds []hx.Discrepancy, info map[string]bool) {
 		info["refused-load-before-the-request"] = true
 		if err := root.ParseString(refusedExtension(c.Schema)); err == nil {
 			return []hx.Discrepancy{{Kind: "setup", Detail: "the document meant to be refused was accepted:\n" + refusedExtension(c.Schema)}}, info
+		}
+	}
+	if c.Exercise {
+		// what the root says about itself must not depend on the requests it has served meanwhile
+		ask := func() string {
+			defer func() { _ = recover() }()
+			res := root.ResolveString(strings.ReplaceAll(c17Query, "INC", "true"), "", nil)
+			return hx.Show(hx.Norm(res))
+		}
+		before := ask()
+		defer func() {
+			if after := ask(); after != before && len(ds) == 0 {
+				ds = append(ds, hx.Discrepancy{Kind: "introspection-changed-by-requests", Detail: fmt.Sprintf("the answer to the introspection request changed after these requests were resolved: %s\nrequests:\n  %s\nschema:\n%s",
+					firstDiff(strings.ReplaceAll(before, ",", ",\n"), strings.ReplaceAll(after, ",", ",\n")), strings.Join(ExerciseRequests(c.Schema), "\n  "), sdl)})
+			}
+		}()
+		for _, q := range ExerciseRequests(c.Schema) {
+			info["requests-with-arguments-resolved-before-the-introspection"] = true
+			func() {
+				defer func() { _ = recover() }() // (a panic here is C03's business)
+				_ = root.ResolveString(q, "", nil)
+			}()
 		}
 	}
 	for i, inc := range append([]string{c.InclDep}, c.Then...) {
@@ -718,8 +786,10 @@ func TestC17(t *testing.T) {
 		}
 		failed := rapid.IntRange(0, 3).Draw(rt, "refusedLoad") == 0
 		api := loads == nil && rapid.IntRange(0, 2).Draw(rt, "goAPI") == 0
+		exercise := rapid.Bool().Draw(rt, "exercise")
+		steps := api && rapid.Bool().Draw(rt, "apiSteps")
 		for _, rk := range []string{"reflection", "resolver", "any"} {
-			one(rt.Fatalf, &c17Case{Schema: s, RootKind: rk, InclDep: inc, Then: then, Loads: loads, FailedLoad: failed, API: api})
+			one(rt.Fatalf, &c17Case{Schema: s, RootKind: rk, InclDep: inc, Then: then, Loads: loads, FailedLoad: failed, API: api, Exercise: exercise, APISteps: steps})
 		}
 	})
 }
